@@ -2,7 +2,12 @@
 pub mod broker;
 pub mod broker_mon;
 pub mod broker_run;
+pub mod c05;
+pub mod c09;
 pub mod c15;
+pub mod crc;
+pub mod fakeredis;
 pub mod prng;
 pub mod report;
 pub mod resp_ref;
+pub mod sim;
